@@ -1,8 +1,10 @@
 (** C20 — property theorems only.  They quantify over ALL numbers of permits (>= 1), ALL numbers [n] of partial
     functions and ALL schedules [acts] (body i returns / body i raises / the caller is cancelled) of the model
     HailV.Gather.Model of the bounded gather helpers after fixes/C20.diff, which the check ties to
-    hail/python/hailtop/utils/utils.py by a differential run.  [s] below is the state after the schedule. *)
-From HailV Require Import Common.Prelude Gather.Model Gather.Lemmas.
+    hail/python/hailtop/utils/utils.py by a differential run.  [s] below is the state after the schedule.
+    The C20_online_* theorems at the end are about HailV.Gather.OnlineModel, a faithful model of
+    OnlineBoundedGather2 AS IT IS (with the WithoutSemaphore of the fix): its exit-waits statement is refuted. *)
+From HailV Require Import Common.Prelude Gather.Model Gather.Lemmas Gather.OnlineModel Gather.OnlineLemmas.
 Open Scope Z_scope.
 
 (** Bound.  The semaphore never goes negative and permits are conserved: free permits + running bodies =
@@ -134,3 +136,86 @@ Proof.
   apply IH. apply step_out_stable. exact H.
 Qed.
 Print Assumptions C20_returns_once.
+
+(** * OnlineBoundedGather2 (faithful model of the class as it is) *)
+
+(** Bound: permits are conserved, the semaphore never goes negative, and when __aexit__ returns or raises
+    (the caller holds its permit again) at most [permits - 1] bodies run. *)
+Theorem C20_online_bound : forall cf n acts, 1 <= opermits cf ->
+  let s := orun cf n acts in
+  0 <= ovalue s /\ ovalue s + nrunning (ots s) = opermits cf /\ nrunning (ots s) <= opermits cf /\
+  (0 < nwait (ots s) -> ovalue s = 0) /\
+  (forall o k a, ocaller s = KOut o k a -> 0 <= k /\ k + 1 <= opermits cf).
+Proof.
+  intros cf n acts Hp s. destruct (orun_inv cf Hp n acts) as (I1 & I2 & I3 & _ & _ & I6). fold s in I1, I2, I3, I6.
+  split; [exact I1|]. split; [exact I2|]. split; [lia|]. split; [exact I3|].
+  intros o k a Hc. rewrite Hc in I6. tauto.
+Qed.
+Print Assumptions C20_online_bound.
+
+(** "If a background task fails, all running background tasks are cancelled and the pool is shut down": once an
+    exception is stored no task is running or waiting. *)
+Theorem C20_online_failure_cancels_all : forall cf n acts, 1 <= opermits cf ->
+  oexc (orun cf n acts) <> None -> nlive (ots (orun cf n acts)) = 0 /\ oshut (orun cf n acts) = true.
+Proof.
+  intros cf n acts Hp H. destruct (orun_inv cf Hp n acts) as (_ & _ & _ & I4 & I5 & _).
+  apply I5 in H. split; [apply I4; exact H|exact H].
+Qed.
+Print Assumptions C20_online_failure_cancels_all.
+
+(** Error contract: the exit raises the FIRST exception - the one of the with-body if it raised, else the one
+    of the first background task that raised -, returns normally only if none was raised (then every task has
+    finished), and raises CancelledError only if the caller was cancelled. *)
+Theorem C20_online_error_contract : forall cf n acts k a, 1 <= opermits cf ->
+  let s := orun cf n acts in
+  (forall e, ocaller s = KOut (OErr e) k a ->
+     (body_raises cf = true /\ e = 1) \/
+     exists acts1 i acts2, acts = acts1 ++ OErr_ i e :: acts2 /\ oexc (orun cf n acts1) = None /\
+                           nth_error (ots (orun cf n acts1)) i = Some TR) /\
+  (forall rs, ocaller s = KOut (OVals rs) k a -> oexc s = None /\ rs = map ores (ots s) /\ nlive (ots s) = 0) /\
+  (ocaller s = KOut OCancelled k a -> In OCancelCaller acts).
+Proof.
+  intros cf n acts k a Hp s. pose proof (orun_inv cf Hp n acts) as (_ & _ & _ & _ & I5 & I6). fold s in I5, I6.
+  split; [|split].
+  - intros e Hc. rewrite Hc in I6. destruct I6 as (_ & _ & _ & (He & _)). apply (oexc_origin cf n acts e He).
+  - intros rs Hc. rewrite Hc in I6. destruct I6 as (_ & _ & _ & (_ & _ & HL & Hrs & Hs)).
+    split; [|auto]. destruct (oexc s) eqn:E; [|reflexivity]. exfalso.
+    assert (oshut s = true) by (apply I5; congruence). congruence.
+  - intros Hc. apply (ocancel_origin cf n). fold s. rewrite Hc. reflexivity.
+Qed.
+Print Assumptions C20_online_error_contract.
+
+(** Exit waits for all background tasks - PARTIAL: proved when the with-body did not raise and the caller was
+    not cancelled (normal exit, or exit because a background task raised): at the instant __aexit__ returns or
+    raises no background task is unfinished, and none is afterwards. *)
+Theorem C20_online_exit_waits_partial : forall cf n acts o k a, 1 <= opermits cf ->
+  let s := orun cf n acts in
+  ocaller s = KOut o k a -> body_raises cf = false -> o <> OCancelled ->
+  a = 0 /\ nlive (ots s) = 0.
+Proof.
+  intros cf n acts o k a Hp s Hc Hb Ho. pose proof (orun_inv cf Hp n acts) as (_ & _ & _ & I4 & I5 & I6).
+  fold s in I4, I5, I6. rewrite Hc in I6. destruct I6 as (_ & _ & _ & D).
+  destruct o as [rs|e|]; cbn [out_clause] in D; [tauto| |congruence].
+  destruct D as [He Ha]. split; [apply Ha; exact Hb|]. apply I4. apply I5. congruence.
+Qed.
+Print Assumptions C20_online_exit_waits_partial.
+
+(** ... and REFUTED in the two remaining cases.  (1) The with-body raises after submitting one task:
+    __aexit__ re-raises while that (cancelled) task is still unfinished. *)
+Theorem C20_online_exit_waits_refuted_body_raises : exists cf n o k a,
+  1 <= opermits cf /\ ocaller (orun cf n []) = KOut o k a /\ 0 < a.
+Proof.
+  exists w_body, 1%nat, (OErr 1), 0, 1. split; [cbn; lia|]. split; [exact online_body_raise_witness|lia].
+Qed.
+Print Assumptions C20_online_exit_waits_refuted_body_raises.
+
+(** (2) The caller is cancelled while __aexit__ waits: CancelledError propagates, the pool is not shut down, the
+    background task keeps running after the context manager has exited. *)
+Theorem C20_online_exit_waits_refuted_caller_cancelled : exists cf n acts k a,
+  1 <= opermits cf /\ ocaller (orun cf n acts) = KOut OCancelled k a /\ 0 < a /\
+  0 < nlive (ots (orun cf n acts)) /\ oshut (orun cf n acts) = false.
+Proof.
+  exists w_cancel, 1%nat, [OCancelCaller], 1, 1. rewrite online_cancel_witness.
+  cbn [ocaller ots oshut opermits w_cancel]. unfold nlive. cbn [count is_live]. repeat split; lia.
+Qed.
+Print Assumptions C20_online_exit_waits_refuted_caller_cancelled.
